@@ -451,12 +451,21 @@ Definition core_events (sch : list event) : list cevent :=
 (* ------------------------------------------------------------------ *)
 (* prediction (a function of the fault only)                            *)
 (* ------------------------------------------------------------------ *)
-Definition predict_outcome (e : fenv) : outcome :=
-  match fe_sig e with
-  | Some s => if fe_sig_default e then Killed s else Exited 1
-  | None => Exited 1
+(* The prediction is what the canonical schedule gives: the failing thread runs
+   until it is done, then the main thread, nobody else moves.  The theorems say
+   that every other schedule, with any other threads, ends the same way. *)
+Definition canon_sched : list cevent := repeat EvF 24 ++ repeat EvMain 24.
+Definition canon (c : cfg) (e : fenv) : core := run_core c e (init_core c e false) canon_sched.
+Definition predict_outcome (c : cfg) (e : fenv) : option outcome := k_res (canon c e).
+Definition predict_printed (c : cfg) (e : fenv) : N := k_printed (canon c e).
+
+(* what the property allows *)
+Definition outcome_allowed (e : fenv) (o : outcome) : bool :=
+  match o with
+  | Exited n => N.eqb n 1
+  | Killed s => match fe_sig e with Some s' => N.eqb s s' && fe_sig_default e | None => false end
   end.
-Definition predict_printed (e : fenv) : N := if fst (fe_logp e) then 1 else 0.
+Definition expected_printed (e : fenv) : N := if fst (fe_logp e) then 1 else 0.
 
 (* ------------------------------------------------------------------ *)
 (* termination measure                                                  *)
@@ -541,12 +550,16 @@ Definition closedb (c : cfg) (e : fenv) (S : list core) : bool :=
   forallb (fun k => forallb (fun ev => memb (cstep c e ev k) S) all_cevents) S.
 
 (* what must hold in every reachable state *)
-Definition outcome_eqb (a b : outcome) : bool := if outcome_eq_dec a b then true else false.
+Definition optout_eq_dec : forall a b : option outcome, {a = b} + {a <> b}.
+Proof. decide equality. apply outcome_eq_dec. Defined.
+Definition optout_eqb (a b : option outcome) : bool := if optout_eq_dec a b then true else false.
 
 Definition good_state (c : cfg) (e : fenv) (k : core) : bool :=
-  (* 1. a final state is the predicted one, with the predicted number of diagnostics *)
+  (* 1. a final state is the one of the canonical schedule, it is allowed by the property,
+        and the number of diagnostics is 1 or 0 according to the print condition *)
   match k_res k with
-  | Some o => outcome_eqb o (predict_outcome e) && N.eqb (k_printed k) (predict_printed e)
+  | Some o => optout_eqb (Some o) (predict_outcome c e) && N.eqb (k_printed k) (predict_printed c e)
+              && outcome_allowed e o && N.eqb (k_printed k) (expected_printed e)
   | None =>
     (* 2. not final: some own step makes progress *)
     existsb (fun ev => Nat.ltb (mu c (cstep c e ev k)) (mu c k)) own_events
@@ -554,7 +567,7 @@ Definition good_state (c : cfg) (e : fenv) (k : core) : bool :=
   (* 3. success is never signalled or reported *)
   && negb (k_completed k)
   && match k_m k with MReturned => false | _ => true end
-  && N.leb (k_printed k) (predict_printed e)
+  && N.leb (k_printed k) (expected_printed e)
   (* 4. own steps either do nothing or decrease the measure; others never increase it *)
   && forallb (fun ev => core_eqb (cstep c e ev k) k || Nat.ltb (mu c (cstep c e ev k)) (mu c k)) own_events
   && forallb (fun ev => Nat.leb (mu c (cstep c e ev k)) (mu c k)) env_events.
@@ -616,8 +629,8 @@ Definition run_fault (r : role) (x : N) (generated dfl main_suspended : bool)
   let e := fenv_of gen_cfg r x generated dfl in
   run gen_cfg e (init_state gen_cfg e main_suspended others) sch.
 
-Definition predict (r : role) (x : N) (generated dfl : bool) : outcome * N :=
-  let e := fenv_of gen_cfg r x generated dfl in (predict_outcome e, predict_printed e).
+Definition predict (r : role) (x : N) (generated dfl : bool) : option outcome * N :=
+  let e := fenv_of gen_cfg r x generated dfl in (predict_outcome gen_cfg e, predict_printed gen_cfg e).
 
 Definition gen_check_all : bool := check_all gen_cfg EIO.
 Definition gen_mu_bound (r : role) (x : N) (generated dfl sp : bool) : nat :=
